@@ -3,7 +3,8 @@
 Static necessary conditions of `read(write(M)) == M`, order independence and the write fix-point:
 writer/reader agreement on the text layout of every row kind, sort-before-write for every map iteration,
 totality of the sort keys, escape/unescape tables, field coverage in both directions, duplicate-key
-rejection, the indentation iterator's decision table, and error propagation.
+rejection, the indentation iterator's decision table, error propagation, and verbatim transport of
+every cell between the text and the model (R03.9).
 """
 import json
 import os
@@ -24,15 +25,22 @@ CLAIM = {
             "templates, in the reader's next()/into_names()/end() sequence and in spec/tiny_v2.json; an empty cell <=> None on both sides; "
             "R03.5 escape/unescape replacement tables are mutually inverse and cover the characters special to the line and field "
             "splitters, every comment passes through them; R03.6 add_child inserts only into a vacant entry under the key computed by "
-            "get_key, readers insert only through add_*, a second comment is rejected; R03.7 WithMoreIdentIter::next decision table "
+            "get_key, every add_* either delegates to it or shows the same Occupied=>Err / Vacant=>insert table on its own map (any "
+            "other direct insertion is reported), readers insert only through add_*, a second comment is rejected; R03.7 WithMoreIdentIter::next decision table "
             "(Less->None, Equal->next, Greater->Err, operand order), new=0, next_level=+1, on_every_line propagates the callback error; "
-            "R03.8 no Result is discarded in the reader/writer functions.",
+            "R03.8 no Result is discarded in the reader/writer functions; R03.9 verbatim transport: from the BufRead::lines item through "
+            "TinyLine::new (indentation strip, split at the separator), next/end/into_names/into_namespaces and the struct literals of "
+            "read into every model field, and from every model field into its hole of the writer template, a cell passes only through "
+            "selections, ownership/From/TryFrom/parse conversions (comments: escape/unescape) - any other call (trim, case change, "
+            "slicing, a helper that does not return its argument unchanged, `.map(path_fn)`) is reported with the call named.",
     "note": "Not decided: the inverse law and the byte-identical fix-point for all contents (values of names/descriptors containing "
-            "the separator, validity conversions, unicode), termination. Known findings: Mappings.javadoc is written but cannot be "
+            "the separator, validity conversions, unicode), termination; the Display/FromStr/TryFrom impls a cell is converted by are "
+            "taken to be mutually inverse; format options of a hole (width/fill) are not in the facts. Known findings: Mappings.javadoc is written but cannot be "
             "read back; only \\n is escaped. Trusted: rustc HIR/typeck/const-eval and FormatArgs templates; spec/tiny_v2.json; "
             "std semantics of BufRead::lines, str::split, str::replace, sort_by_key.",
     "technique": "static analysis: text-layout extraction from write! templates vs. reader column use (typed place provenance), "
-                 "order taint, decision tables, guard dominance, coverage over the ADT tables",
+                 "order taint, decision tables, guard dominance, coverage over the ADT tables, call-sensitive value provenance "
+                 "(allow-list of selections/conversions, repository helpers checked recursively, fail closed)",
 }
 
 # public entry points (anchored by name); private helpers are found by role: functions whose writes are inlined into
@@ -53,11 +61,13 @@ def run(F, R, tier):
     r03_6(q, R, ctx)
     r03_7(q, R)
     r03_8(q, R, ctx)
+    r03_9(q, R, ctx, spec)
     return ("text-layout extraction: the emission term of tiny_v2::write (write!/writeln! templates, helpers inlined) is cut into rows "
             "and columns, each hole traced to the (ADT, field) it prints; tiny_v2::read is abstracted to indentation levels, tag "
             "dispatch and the per-row column consumption (next/into_names/end) with the struct field each column is stored in; "
             "both are compared with each other and with spec/tiny_v2.json. Plus order taint with sort-key totality (derived Ord + "
-            "ToKey components), escape tables, add_child entry table, WithMoreIdentIter decision table, discarded-Result scan.")
+            "ToKey components), escape tables, add_child entry table, WithMoreIdentIter decision table, discarded-Result scan, "
+            "verbatim transport of every cell (strict value provenance line -> tokeniser -> accessor -> model field -> template hole).")
 
 
 # ------------------------------------------------------------------------------------------------
@@ -68,7 +78,8 @@ class Ctx:
 
 
 def _short_path(maps):
-    return "/".join(m.split(".", 1)[1] for m in maps)
+    # an element without an ADT part ("?p": a level hanging under a row that creates no node) is kept as it is
+    return "/".join(m.split(".", 1)[1] if "." in m else m for m in maps)
 
 
 def extract(q, R, spec):
@@ -86,9 +97,9 @@ def extract(q, R, spec):
         return cx
     cx.wb, cx.rb = wb, rb
     # ---- writer
-    W = U.Writer(q)
+    W = U.Writer(q, strict=True)
     cx.W = W
-    wfn = U.Fn(q, wb)
+    wfn = U.Fn(q, wb, strict=True)
     cx.wfn = wfn
     try:
         term = U.flatten_term(W.term(wfn, wfn.root))
@@ -103,7 +114,7 @@ def extract(q, R, spec):
             return cx
         cx.wrows.append(describe_writer_row(q, cx, r, spec["separator"]))
     # ---- reader
-    RD = U.Reader(q, line_types=("TinyLine",))
+    RD = U.Reader(q, line_types=("TinyLine",), strict=True)
     rfn = RD.mkfn(rb)
     cx.RD, cx.rfn = RD, rfn
     levels, probs = RD.levels(rfn)
@@ -792,70 +803,112 @@ def r03_5(q, R, cx, spec):
 
 
 # ------------------------------------------------------------------------------------------------ R03.6
+def fn_stmt_of(b, node):
+    """The innermost statement / tail expression of function `b` that contains `node` (for reports)."""
+    best = node
+    for st in H.walk(b["body"]):
+        if st.get("k") == "block":
+            for x in list(st["stmts"]) + ([st["tail"]] if "tail" in st else []):
+                if any(y is node for y in H.walk(x)):
+                    best = x
+    return best
+
+
+INS = ("insert", "insert_entry", "or_insert", "or_insert_with", "or_insert_with_key", "or_default", "insert_full", "extend", "push",
+       "shift_insert", "insert_sorted", "insert_before")
+
+
+def entry_table(q, R, label, b, map_fields, anchor):
+    """Duplicate-key table of a function that inserts `child` (parameter 1) into a map: `match <map>.entry(<key of child>)`
+    with Occupied => Err (no insertion) and Vacant => the one insertion, returned in Ok.  `<map>` is parameter 0 followed by the
+    field hops `map_fields` ([] for add_child(map, child); [("f", Adt, field)] for a method that works on self.<field>).
+    Emits `<label>:key|Occupied|Vacant|no-other-insert`; -> all hold.  With anchor=False a missing `match` is just False."""
+    ms = [n for n in H.walk(b["body"]) if n.get("k") == "match" and "Entry" in (n["scrut"].get("ty") or "")]
+    if anchor:
+        if not R.anchor("R03.6", "match map.entry(key) in %s" % label, len(ms) == 1, sp=b["sp"]):
+            return False
+    elif len(ms) != 1:
+        return False
+    m = ms[0]
+    fn = U.Fn(q, b)
+    sc = H.peel(m["scrut"])
+    pids = H.param_ids(b)
+    results = []
+    ok_scrut = False
+    if sc.get("k") == "mcall" and sc["name"] == "entry":
+        mc = fn.trace(sc["recv"])
+        ok_scrut = mc.root[0] == "param" and mc.root[1] == 0 and [tuple(h[:3]) for h in mc.hops] == [tuple(x) for x in map_fields]
+    kch = fn.trace(sc["args"][0]) if ok_scrut else None
+    # child.get_node_info().get_key(): get_node_info is a call on a generic node, an `info` field hop on a concrete one
+    key_ok = bool(kch) and kch.root[0] == "param" and kch.root[1] == 1 and \
+        [h[1] for h in kch.hops if h[0] == "call" and h[1] != "get_node_info"] == ["get_key"] and \
+        all(h[0] == "call" or (h[0] == "f" and h[2] == "info") for h in kch.hops) and \
+        (any(h[0] == "call" and h[1] == "get_node_info" for h in kch.hops) or any(h[0] == "f" for h in kch.hops))
+    results.append(ok_scrut and key_ok)
+    R.inst("R03.6", "%s:key" % label, ok_scrut and key_ok, sp=m["scrut"].get("sp"), expect="map.entry(child.get_node_info().get_key()?)",
+           got=kch.show() if kch else H.render(sc))
+    all_ins = [n for n in H.walk(b["body"]) if n.get("k") == "mcall" and n["name"] in INS]
+    arms = {}
+    for want in ("Occupied", "Vacant"):
+        v = T.V(want, T.sym("e"))
+        for ai, a in enumerate(m["arms"]):
+            r = T.match_pat(a["pat"], v, {})
+            if r is True and "guard" not in a:
+                arms[want] = (ai, a)
+                break
+            if r is not False:
+                break
+    # Occupied: reaches only Err, no insertion
+    if "Occupied" in arms:
+        arm = arms["Occupied"][1]
+        ins = [n for n in H.walk(arm["body"]) if n.get("k") == "mcall" and n["name"] in INS]
+        ok = (H.is_err_exit(arm["body"]) or any(H.is_err_exit(x) for x in H.walk(arm["body"]) if x.get("k") == "ret")) \
+            and H.diverges(arm["body"]) and not ins
+        results.append(bool(ok))
+        R.inst("R03.6", "%s:Occupied" % label, ok, sp=arm["body"].get("sp"), expect="Err(key already exists), no insertion", got=H.render(arm["body"])[:100])
+    else:
+        results.append(False)
+        R.inst("R03.6", "%s:Occupied" % label, False, sp=m.get("sp"), detail="no decidable arm for Entry::Occupied")
+    # Vacant: the one insertion of the function is VacantEntry::insert(child) on the Vacant payload of this entry, reached only
+    # for Vacant (inside that arm, or after the match when every other arm diverges), and its result is returned in Ok
+    okv, got = False, None
+    if "Vacant" in arms and len(all_ins) == 1:
+        ai, arm = arms["Vacant"]
+        ins = all_ins[0]
+        f2 = fn.with_sel({id(m): ai})
+        rc = f2.trace(ins["recv"])
+        got = rc.show()
+        from_vacant = rc.root[0] == "param" and rc.root[1] == 0 and [h[1] for h in rc.hops if h[0] == "call"] == ["entry"] \
+            and [h[:3] for h in rc.hops if h[0] == "v"] == [("v", "Entry", "Vacant")] \
+            and [tuple(h[:3]) for h in rc.hops if h[0] == "f"] == [tuple(x) for x in map_fields]
+        child = ins["name"] == "insert" and len(ins["args"]) == 1 and H.local_of(ins["args"][0]) and H.local_of(ins["args"][0])[0] == pids[1]
+        inside = any(x is ins for x in H.walk(arm["body"]))
+        others_diverge = all(H.diverges(a["body"]) for a in m["arms"] if a is not arm)
+        in_match = any(x is ins for x in H.walk(m))
+        reached_only = inside or (not in_match and others_diverge)
+        # returned: Ok(<insert>) is the function result (tail / return), possibly through the match value
+        par = fn.parent.get(id(ins))
+        wrapped = par is not None and par.get("k") == "call" and H.ctor_of(par) and H.ctor_of(par)[1] == "Ok"
+        okv = bool(from_vacant and child and reached_only and wrapped)
+        if not okv:
+            got = {"receiver": got, "from_vacant": from_vacant, "child": bool(child), "reached_only_for_vacant": reached_only, "Ok(..)": bool(wrapped)}
+    results.append(okv)
+    R.inst("R03.6", "%s:Vacant" % label, okv, sp=(all_ins[0] if all_ins else m).get("sp"),
+           expect="exactly one insertion: Ok(<Vacant entry of map.entry(key)>.insert(child))", got=got if got else [H.render(x)[:60] for x in all_ins])
+    results.append(len(all_ins) <= 1)
+    R.inst("R03.6", "%s:no-other-insert" % label, len(all_ins) <= 1, sp=b["sp"], got=[H.render(n)[:60] for n in all_ins])
+    return all(results)
+
+
 def r03_6(q, R, cx):
     R.rule("R03.6", "mappings::add_child inserts only in the Vacant arm of map.entry(key), Occupied reaches only Err, the key is "
                     "child.get_node_info().get_key(); get_key = first name (+ descriptor / index); add_class/add_field/add_method/"
-                    "add_parameter delegate to add_child on their own map; tiny_v2::read inserts only through them and propagates "
+                    "add_parameter delegate to add_child on their own map (or carry the same entry table inline; any other direct insertion into "
+                    "the map - insert, entry().or_insert - is reported); tiny_v2::read inserts only through them and propagates "
                     "their error; a second comment for the same node is rejected")
     ac = q.fn("add_child", within="tree::mappings::add_child")
     if R.anchor("R03.6", "fn tree::mappings::add_child", ac):
-        ms = [n for n in H.walk(ac["body"]) if n.get("k") == "match" and "Entry" in (n["scrut"].get("ty") or "")]
-        if R.anchor("R03.6", "match map.entry(key) in add_child", len(ms) == 1, sp=ac["sp"]):
-            m = ms[0]
-            fn = U.Fn(q, ac)
-            sc = H.peel(m["scrut"])
-            pids = H.param_ids(ac)
-            ok_scrut = sc.get("k") == "mcall" and sc["name"] == "entry" and H.local_of(sc["recv"]) and H.local_of(sc["recv"])[0] == pids[0]
-            kch = fn.trace(sc["args"][0]) if ok_scrut else None
-            key_ok = bool(kch) and kch.root[0] == "param" and kch.root[1] == 1 and [h[1] for h in kch.hops if h[0] == "call"] == ["get_node_info", "get_key"]
-            R.inst("R03.6", "add_child:key", ok_scrut and key_ok, sp=m["scrut"].get("sp"), expect="map.entry(child.get_node_info().get_key()?)",
-                   got=kch.show() if kch else H.render(sc))
-            INS = ("insert", "insert_entry", "or_insert", "or_insert_with", "insert_full", "extend", "push", "shift_insert", "insert_sorted")
-            all_ins = [n for n in H.walk(ac["body"]) if n.get("k") == "mcall" and n["name"] in INS]
-            arms = {}
-            for want in ("Occupied", "Vacant"):
-                v = T.V(want, T.sym("e"))
-                for ai, a in enumerate(m["arms"]):
-                    r = T.match_pat(a["pat"], v, {})
-                    if r is True and "guard" not in a:
-                        arms[want] = (ai, a)
-                        break
-                    if r is not False:
-                        break
-            # Occupied: reaches only Err, no insertion
-            if "Occupied" in arms:
-                arm = arms["Occupied"][1]
-                ins = [n for n in H.walk(arm["body"]) if n.get("k") == "mcall" and n["name"] in INS]
-                ok = (H.is_err_exit(arm["body"]) or any(H.is_err_exit(x) for x in H.walk(arm["body"]) if x.get("k") == "ret")) \
-                    and H.diverges(arm["body"]) and not ins
-                R.inst("R03.6", "add_child:Occupied", ok, sp=arm["body"].get("sp"), expect="Err(key already exists), no insertion", got=H.render(arm["body"])[:100])
-            else:
-                R.inst("R03.6", "add_child:Occupied", False, sp=m.get("sp"), detail="no decidable arm for Entry::Occupied")
-            # Vacant: the one insertion of the function is VacantEntry::insert(child) on the Vacant payload of this entry, reached only
-            # for Vacant (inside that arm, or after the match when every other arm diverges), and its result is returned in Ok
-            okv, got = False, None
-            if "Vacant" in arms and len(all_ins) == 1:
-                ai, arm = arms["Vacant"]
-                ins = all_ins[0]
-                f2 = fn.with_sel({id(m): ai})
-                rc = f2.trace(ins["recv"])
-                got = rc.show()
-                from_vacant = rc.root[0] == "param" and rc.root[1] == 0 and [h[1] for h in rc.hops if h[0] == "call"] == ["entry"] \
-                    and [h[:3] for h in rc.hops if h[0] == "v"] == [("v", "Entry", "Vacant")]
-                child = ins["name"] == "insert" and len(ins["args"]) == 1 and H.local_of(ins["args"][0]) and H.local_of(ins["args"][0])[0] == pids[1]
-                inside = any(x is ins for x in H.walk(arm["body"]))
-                others_diverge = all(H.diverges(a["body"]) for a in m["arms"] if a is not arm)
-                in_match = any(x is ins for x in H.walk(m))
-                reached_only = inside or (not in_match and others_diverge)
-                # returned: Ok(<insert>) is the function result (tail / return), possibly through the match value
-                par = fn.parent.get(id(ins))
-                wrapped = par is not None and par.get("k") == "call" and H.ctor_of(par) and H.ctor_of(par)[1] == "Ok"
-                okv = bool(from_vacant and child and reached_only and wrapped)
-                if not okv:
-                    got = {"receiver": got, "from_vacant": from_vacant, "child": bool(child), "reached_only_for_vacant": reached_only, "Ok(..)": bool(wrapped)}
-            R.inst("R03.6", "add_child:Vacant", okv, sp=(all_ins[0] if all_ins else m).get("sp"),
-                   expect="exactly one insertion: Ok(<Vacant entry of map.entry(key)>.insert(child))", got=got if got else [H.render(x)[:60] for x in all_ins])
-            R.inst("R03.6", "add_child:no-other-insert", len(all_ins) <= 1, sp=ac["sp"], got=[H.render(n)[:60] for n in all_ins])
+        entry_table(q, R, "add_child", ac, map_fields=[], anchor=True)
     # get_key tables
     want = {("FieldNameAndDesc", "desc"): ("FieldMapping", "desc", None), ("FieldNameAndDesc", "name"): ("FieldMapping", "names", 0),
             ("MethodNameAndDesc", "desc"): ("MethodMapping", "desc", None), ("MethodNameAndDesc", "name"): ("MethodMapping", "names", 0),
@@ -864,18 +917,36 @@ def r03_6(q, R, cx):
         got = cx.key_eq.get(k)
         R.inst("R03.6", "get_key:%s%s" % (k[0], "." + k[1] if k[1] else ""), got == want[k], expect=U.role_str(want[k]), got=U.role_str(got) if got else None,
                detail="the map key must be the entry's own first name (and descriptor / index)")
-    # add_* delegate to add_child on the right map
+    # add_* delegate to add_child on the right map (or carry the same entry table themselves: add_child inlined)
     for name, mp in (("add_class", ("Mappings", "classes")), ("add_field", ("ClassNowodeMapping", "fields")),
                      ("add_method", ("ClassNowodeMapping", "methods")), ("add_parameter", ("MethodNowodeMapping", "parameters"))):
         b = q.fn(name, within="tree::mappings::")
         if R.anchor("R03.6", "fn %s" % name, b):
             tgt = U.insert_target(q, b)
             calls = [n for n in H.walk(b["body"]) if n.get("k") == "call" and H.callee_name(n) == "add_child"]
+            direct = U.direct_inserts(b)
+            expect = "add_child(&mut self.%s, child)" % mp[1]
+            own = U.short(b.get("impl_ty")) == mp[0]
+            if direct and not calls:
+                # the function inserts into its map itself: it is its own duplicate-key policy and must show the entry table
+                shown = "; ".join(H.render(fn_stmt_of(b, d[0]))[:90] for d in direct)
+                tbl = len(direct) == 1 and entry_table(q, R, name, b, map_fields=[("f",) + mp], anchor=False)
+                has_match = any(n.get("k") == "match" and "Entry" in (n["scrut"].get("ty") or "") for n in H.walk(b["body"]))
+                R.inst("R03.6", "delegate:%s" % name, bool(tbl) and tgt == mp and own, sp=direct[0][0].get("sp"),
+                       expect=expect + "  (or the same table inline: match self.%s.entry(child key) { Occupied => Err, Vacant => insert(child) })" % mp[1],
+                       got="%s bypasses add_child and inserts into %s.%s itself: %s%s" % (
+                           name, direct[0][1][0], direct[0][1][1], shown,
+                           "" if tbl else ("  -- its entry table does not hold (see the %s:* instances)" % name if has_match else
+                                           "  -- no Occupied => Err / Vacant => insert(child) table: an occupied key is not rejected")),
+                       detail="a second row with the same key must be an error; inserting through entry().or_insert / insert keeps or "
+                              "overwrites the first entry silently (lost or re-parented row)")
+                continue
             key_ok = len(calls) == 1 and (calls[0].get("callee") or {}).get("key") == (ac or {}).get("key")
             child_ok = len(calls) == 1 and len(calls[0]["args"]) == 2 and H.local_of(calls[0]["args"][1]) and \
                 H.local_of(calls[0]["args"][1])[0] == H.param_ids(b)[1]
-            R.inst("R03.6", "delegate:%s" % name, tgt == mp and key_ok and bool(child_ok) and U.short(b.get("impl_ty")) == mp[0], sp=b["sp"],
-                   expect="add_child(&mut self.%s, child)" % mp[1], got=tgt)
+            R.inst("R03.6", "delegate:%s" % name, tgt == mp and key_ok and bool(child_ok) and own and not direct, sp=b["sp"],
+                   expect=expect, got={"inserts into": "%s.%s" % tgt if tgt else None, "add_child calls": len(calls),
+                                       "direct insertions": [H.render(d[0])[:80] for d in direct]})
     # the reader inserts only through add_* and propagates the error
     if cx.ok:
         fn = cx.rfn
@@ -1074,3 +1145,256 @@ def r03_8(q, R, cx):
         R.inst("R03.8", "no-discarded-result:%s" % name, not bad, sp=(bad[0].get("sp") if bad else b["sp"]),
                got=[H.render(x)[:80] for x in bad], expect="every Result is propagated with `?`, returned or matched")
     R.floor("R03.8", 13)
+
+
+# ------------------------------------------------------------------------------------------------ R03.9
+# hops that select a part of a structure / an element of a sequence without touching the text
+STRUCT_HOPS = ("f", "idx", "some", "elem", "mapiter", "rest", "mk", "v")
+# iterator plumbing that hands an element on as it is (or not at all)
+ITER_PLUMBING = ("next", "filter")
+# typed conversions of a whole cell (the "validity conversions" of the note; inverse of Display on what the writer prints)
+TYPED = ("parse",)
+# reading the physical lines
+LINE_SOURCE = ("new", "with_capacity", "lines", "enumerate", "peekable")
+
+
+def value_leaves(fn, e, limit=16):
+    """Chains an expression can evaluate to: like fn.trace(e), with value-producing `if`/`match` (at the point where the trace
+    stops) expanded into their non-diverging alternatives."""
+    out = []
+
+    def go(f, depth):
+        ch = f.trace(e)
+        if ch.root[0] in ("if", "match") and depth < 6 and len(out) < limit:
+            node = ch.root[1]
+            if ch.root[0] == "if":
+                alts = [(True, node["then"])] + ([(False, node["else"])] if "else" in node else [])
+            else:
+                alts = [(ai, a["body"]) for ai, a in enumerate(node["arms"])]
+            alts = [(sel, b) for sel, b in alts if not H.diverges(b)]
+            if alts and id(node) not in f.sel:
+                for sel, _ in alts:
+                    go(f.with_sel({id(node): sel}), depth + 1)
+                return
+        out.append(ch)
+    go(fn, 0)
+    return out
+
+
+def returned_exprs(b):
+    """The expressions a function can return a value from: its body value and every `return <e>` that is not an error exit."""
+    outs = [b["body"]]
+    for n in H.walk(b["body"], into_closures=False):
+        if n.get("k") == "ret" and "e" in n and not H.is_err_exit(n):
+            outs.append(n["e"])
+    return outs
+
+
+class Verbatim:
+    """Which calls on the way of a value can change its text.  A call of a repository function is looked into: it is harmless
+    iff every value it returns is its first argument, unchanged (same test, recursively)."""
+
+    def __init__(self, q):
+        self.q = q
+        self.memo = {}
+
+    def helper_ok(self, key, depth=0):
+        if key in self.memo:
+            return self.memo[key]
+        self.memo[key] = False          # recursion: fail closed
+        b = self.q.by_key.get(key)
+        ok = False
+        if b is not None and b.get("params") and depth < 4:
+            fn = U.Fn(self.q, b, strict=True)
+            ok = True
+            for e in returned_exprs(b):
+                for ch in value_leaves(fn, e):
+                    if ch.root[0] in ("none", "never"):
+                        continue
+                    if not (ch.root[0] == "param" and ch.root[1] == 0) or self.offenders(ch.hops, (), depth + 1):
+                        ok = False
+        self.memo[key] = ok
+        return ok
+
+    def offenders(self, hops, allowed, depth=0, allowed_keys=()):
+        bad = []
+        for h in hops:
+            if h[0] == "call":
+                name, key = h[1], (h[3] if len(h) > 3 else None)
+                if key is not None and key in allowed_keys:
+                    continue
+                if key is not None and key in self.q.by_key:
+                    if not self.helper_ok(key, depth):
+                        bad.append("%s()" % name)
+                elif name not in allowed and name not in ITER_PLUMBING:
+                    bad.append("%s()" % name)
+            elif h[0] not in STRUCT_HOPS:
+                bad.append("<%s>" % h[0])
+        return bad
+
+
+IN_PLACE = ("make_ascii_lowercase", "make_ascii_uppercase", "truncate", "pop", "push", "push_str", "insert", "insert_str", "remove",
+            "retain", "retain_mut", "clear", "drain", "replace_range", "iter_mut", "for_each", "sort", "sort_by", "sort_by_key",
+            "sort_unstable", "dedup", "dedup_by", "dedup_by_key", "reverse", "swap", "swap_remove", "split_off", "extend", "append",
+            "rotate_left", "rotate_right", "fill", "as_mut_str", "as_mut_vec", "get_mut", "first_mut", "last_mut", "values_mut")
+INT_TYS = ("usize", "u8", "u16", "u32", "u64", "u128", "isize", "i8", "i16", "i32", "i64", "i128", "bool")
+
+
+def in_place_edits(b):
+    """Statements of a (small, cell-carrying) function that can change a text after the traced value was taken: assignments to
+    anything but an integer/bool local, and calls of in-place mutators.  The value trace follows initialisers only, so these
+    functions must be free of such edits for the trace to be the whole story (fail closed)."""
+    out = []
+    for n in H.walk(b["body"]):
+        if n.get("k") in ("assign", "assignop"):
+            l = H.peel(n["l"], refs=False)
+            if not (l.get("k") == "path" and (l.get("ty") or "") in INT_TYS):
+                out.append("assignment `%s`" % H.render(n)[:70])
+        elif n.get("k") == "mcall" and n["name"] in IN_PLACE:
+            out.append("in-place edit `%s`" % H.render(n)[:70])
+    return out
+
+
+def text_param(b):
+    """Index of the (single) parameter of string type."""
+    ix = [i for i, t in enumerate(b.get("inputs") or []) if U.base_ty({"ty": t}).strip() in ("str", "alloc::string::String")]
+    return ix[0] if len(ix) == 1 else None
+
+
+def r03_9(q, R, cx, spec):
+    R.rule("R03.9", "verbatim transport: on the way physical line -> TinyLine::new -> next/end/into_names/into_namespaces -> field of "
+                    "the model, and model field -> hole of the writer's template, the text of a cell passes only through selections "
+                    "(split at the separator, iterator element, Option payload), ownership/type conversions (to_owned, From/TryFrom, "
+                    "parse for the index) and, for comments, escape/unescape (R03.5). Any other call on that way (trim, case change, "
+                    "replace, slicing, a helper that does not return its argument unchanged) makes read(write(M)) differ from M for "
+                    "some content")
+    V = Verbatim(q)
+    sep = spec["separator"]
+    why = "a call that is not a selection or a conversion of the whole cell changes some cell texts; such a text is not read back as it was written"
+
+    def report(key, chains, root_ok, allowed, sp, expect, extra_ok=True, extra_got=None, allowed_keys=(), body=None):
+        bad, shown = [], []
+        if body is not None:
+            bad.extend(in_place_edits(body))
+        for ch in chains:
+            shown.append(ch.show())
+            if ch.root[0] in ("none", "never"):
+                continue
+            if not root_ok(ch):
+                bad.append("value does not come from the expected source: %s" % ch.show())
+            bad.extend(V.offenders(ch.hops, allowed, allowed_keys=allowed_keys))
+        got = {"value": shown if len(shown) != 1 else shown[0]}
+        if bad:
+            got["not verbatim"] = bad
+        if extra_got:
+            got.update(extra_got)
+        R.inst("R03.9", key, bool(chains) and not bad and extra_ok, sp=sp, expect=expect, got=got, detail=why)
+
+    # ---- (1) the physical line handed to the tokeniser
+    tl = q.fn("new", impl_ty="TinyLine")
+    if R.anchor("R03.9", "fn TinyLine::new", tl) and cx.ok:
+        tp = text_param(tl)
+        calls = [n for n in H.walk(cx.rfn.root) if n.get("k") == "call" and (n.get("callee") or {}).get("key") == tl["key"]]
+        if R.anchor("R03.9", "call of TinyLine::new(.., <line>) in tiny_v2::read", len(calls) == 1 and tp is not None, sp=cx.rb["sp"]):
+            chains = value_leaves(cx.rfn, calls[0]["args"][tp])
+            lines = [h for ch in chains for h in ch.hops if h[0] == "call" and h[1] == "lines"]
+            report("verbatim:read:line", chains, lambda ch: ch.root[0] == "param", LINE_SOURCE, calls[0].get("sp"),
+                   "TinyLine::new(n, &<item of BufRead::lines()>)", extra_ok=len(lines) == 1 and "BufRead::lines" in (lines[0][3] or ""))
+    # ---- (2) the tokeniser: cells are the pieces of the line between separators
+    if tl is not None:
+        fn = U.Fn(q, tl, strict=True)
+        tp = text_param(tl)
+        lits = [n for n in H.walk(tl["body"]) if n.get("k") == "struct" and U.short(n.get("adt")) == "TinyLine"]
+        if R.anchor("R03.9", "one TinyLine { .. } literal in TinyLine::new", len(lits) == 1 and tp is not None, sp=tl["sp"]):
+            for fname in ("first_field", "fields"):
+                fs = [f for f in lits[0]["fields"] if f["name"] == fname]
+                if not R.anchor("R03.9", "field TinyLine.%s in the literal" % fname, len(fs) == 1, sp=lits[0].get("sp")):
+                    continue
+                chains = value_leaves(fn, fs[0]["e"])
+                notes = []
+                ok_shape = True
+                for ch in chains:
+                    calls = [h for h in ch.hops if h[0] == "call"]
+                    at = [i for i, h in enumerate(calls) if h[1] == "split"]
+                    if len(at) != 1:
+                        ok_shape = False
+                        notes.append("%d split calls" % len(at))
+                        continue
+                    sp_arg = calls[at[0]][2][0] if calls[at[0]][2] else None
+                    if sp_arg is None or sp_arg.hops or sp_arg.root[0] not in ("lit", "const") or sp_arg.root[-1] != sep:
+                        ok_shape = False
+                        notes.append("split argument is not %r" % sep)
+                    for h in calls[:at[0]]:
+                        # before the split only the indentation is taken off
+                        a0 = h[2][0] if len(h) > 2 and h[2] else None
+                        if h[1] == "slice":
+                            continue
+                        if h[1] == "trim_start_matches" and a0 is not None and not a0.hops and a0.root[-1] == spec["indent"]:
+                            continue
+                        ok_shape = False
+                        notes.append("%s() applied to the line before it is split" % h[1])
+                    for h in calls[at[0] + 1:]:
+                        if h[1] == "slice":
+                            ok_shape = False
+                            notes.append("slice of a cell")
+                report("verbatim:TinyLine::new:%s" % fname, chains, lambda ch: ch.root[0] == "param" and ch.root[1] == tp,
+                       ("split", "slice", "trim_start_matches"), fs[0]["e"].get("sp"),
+                       "line[indentation..].split(%r) -> each piece as it is (to_owned)" % sep, extra_ok=ok_shape,
+                       extra_got={"shape": notes} if notes else None, body=tl)
+    # ---- (3) the accessors hand cells on as they are
+    acc = {}
+    for name in ("next", "end", "into_names", "into_namespaces"):
+        b = q.fn(name, impl_ty="TinyLine")
+        if R.anchor("R03.9", "fn TinyLine::%s" % name, b):
+            acc[b["key"]] = b
+    passes = {}
+
+    def via_fields(ch, depth=0):
+        """the value is taken out of self.fields (directly or through another accessor that does)"""
+        if any(h[0] == "f" and h[1] == "TinyLine" and h[2] == "fields" for h in ch.hops):
+            return True
+        for h in ch.hops:
+            if h[0] == "call" and len(h) > 3 and h[3] in acc and depth < 3:
+                b2 = acc[h[3]]
+                f2 = U.Fn(q, b2, strict=True)
+                if all(via_fields(c2, depth + 1) for e in returned_exprs(b2) for c2 in value_leaves(f2, e) if c2.root[0] not in ("none", "never")):
+                    return True
+        return False
+    for key, b in acc.items():
+        fn = U.Fn(q, b, strict=True)
+        chains = [ch for e in returned_exprs(b) for ch in value_leaves(fn, e)]
+        report("verbatim:TinyLine::%s" % b["name"], chains,
+               lambda ch: ch.root[0] == "param" and ch.root[1] == 0 and via_fields(ch), (), b["sp"],
+               "the next cell(s) of self.fields as they are (empty -> None; From/TryFrom into the typed name)", body=b)
+    # ---- (4) tiny_v2::read: column -> field of the model
+    n_cols = 0
+    if cx.ok:
+        seen = set()
+        bodies = [("header", cx.rfn.root)] + [("row", rr["body"]) for _, rr in sorted(cx.rrows.items(), key=lambda kv: str(kv[0]))]
+        for kind, body in bodies:
+            for st in cx.RD.struct_lits(cx.rfn, body, U.MODEL_INFO):
+                for f in st["fields"]:
+                    role = "%s.%s" % (U.short(st["adt"]), f["name"])
+                    if (role, id(st)) in seen:
+                        continue
+                    seen.add((role, id(st)))
+                    chains = value_leaves(cx.rfn, f["e"])
+                    n_cols += 1
+                    report("verbatim:read:%s" % role, chains, lambda ch: ch.root[0] == "line", TYPED, f["e"].get("sp"),
+                           "<column of the line> through From/TryFrom/parse only")
+    # ---- (5) tiny_v2::write: field of the model -> hole
+    if cx.ok:
+        by_role = {}
+        for wr in cx.wrows:
+            if wr["owner"] is not None:
+                continue            # comment holes: exactly escape(..), R03.5
+            for role, calls, trait, ch in wr["holes"]:
+                if role:
+                    by_role.setdefault(role, []).append(ch)
+        for role in sorted(by_role):
+            rests = []
+            for ch in by_role[role]:
+                r = U.role_of(ch, q, cx.key_eq)
+                rests.append(U.Chain(("field", role), r[1] if r else ch.hops))
+            report("verbatim:write:%s" % role, rests, lambda ch: True, (), cx.wb["sp"], "{%s} printed as it is" % role)
+    R.floor("R03.9", 1 + 2 + 4 + 8 + 8)
